@@ -11,10 +11,13 @@ class C17(vlib.Spec):
                 "C17_uf_find_correct", "C17_uf_union_keeps_first_root",
                 "C17_sm_new_inv", "C17_sm_new_cycle", "C17_sm_new_total",
                 "C17_sm_try_merge_false_sound_partial", "C17_sm_try_merge_enemy_refused_partial",
-                "C17_sm_try_merge_same_group_partial"]
+                "C17_sm_try_merge_same_group_partial",
+                "C17_is_cycle_b_spec", "C17_topo_order_b_sound", "C17_uf_model_satisfies_property"]
     crate, group, binary = "h_graphalg", "dfir", "h_graphalg"
     imports = "From Coq Require Import List NArith.\nFrom HV Require Import GraphAlg.Model GraphAlg.Check.\nImport ListNotations."
-    level = "proof"
+    # topo_sort and union-find statements are proved in full; the SubgraphMerge try_merge clauses are
+    # shipped as _partial (see EXPLANATION), so by DESIGN.md 2.6 the claimed level is "other"
+    level = "other"
     trusted_base = ["coqc 8.16.1 kernel (vm_compute used for case evaluation only)",
                     "hand-written Gallina model coq/theories/GraphAlg/Model.v of graph_algorithms.rs and union_find.rs",
                     "executable property forms and oracles coq/theories/GraphAlg/Check.v",
@@ -51,7 +54,40 @@ class C17(vlib.Spec):
         return graphalg.distribution(cases, results)
 
 
+EXPLANATION = (
+    "Coq 8.16.1 proofs about a branch-by-branch Gallina model + per-run correspondence with dfir_lang. "
+    "PROVED IN FULL (all graphs / all parent maps / all histories, axiom-free): topo_sort Ok => duplicate-free order "
+    "containing every node with every predecessor strictly earlier (Permutation of the nodes on closed graphs); Err => "
+    "non-empty duplicate-free genuine cycle reachable from the nodes; Ok <=> no reachable cycle; fuel bounds (never "
+    "out of fuel). Union-find: find terminates on every parent map; on every history same_set = equivalence closure of "
+    "the unions; find returns the representative and compression is invisible; the first argument's root survives union. "
+    "SubgraphMerge: SMInv (order is a topological permutation of the keys, groups contiguous with representative first, "
+    "subgraph_preds = quotient predecessors, quotient acyclic, enemies symmetric over representatives, no enemy pair "
+    "inside a group) holds after new; new's Err is a genuine cycle; new never panics on closed inputs. "
+    "PARTIAL (names end in _partial): try_merge = false => distinct groups and (enemy conflict or a cycle through the "
+    "merged group) and SMInv is preserved; an enemy conflict is always refused; same-group merges are no-ops answering "
+    "true. MISSING as theorems: completeness of the window-pruned DFS (would-create-cycle => false) and preservation of "
+    "SMInv by a successful merge (window re-sort and idx/len/preds/enemies bookkeeping, absence of panics). These are "
+    "covered only by the correspondence check: on every generated case the real SubgraphMerge is run and SMInv_b, the "
+    "partition bookkeeping and an independent refusal oracle (enemy pair across the groups, or quotient graph with the "
+    "two groups merged is cyclic by source-stripping) are evaluated on its outputs, and outputs are compared with the model.")
+
+
 def main(ctx):
     spec = C17()
     spec.ctx = ctx
-    vlib.standard_check(ctx, spec)
+    orig = vlib.finish
+
+    def finish(ctx_, level, coverage, assumptions, extra=None):
+        coverage["explanation"] = EXPLANATION
+        coverage["partial_theorems"] = [t for t in spec.theorems if t.endswith("_partial")]
+        coverage["exhaustive_scopes"] = ("topo_sort: all digraphs on <=3 nodes (quick) / <=4 nodes incl. self loops "
+                                         "(thorough); SubgraphMerge: every DAG in those scopes with random enemies/merges, "
+                                         "thorough: all 2-step merge sequences x <=1 enemy pair on all 3-node DAGs")
+        return orig(ctx_, level, coverage, assumptions, extra)
+
+    vlib.finish = finish
+    try:
+        vlib.standard_check(ctx, spec)
+    finally:
+        vlib.finish = orig
